@@ -241,7 +241,9 @@ impl <N: Numeric> ArrayExtrema<N> for Array<N> {
                 result.reshape(&result.get_shape()?.remove_at_if(axis, result.ndim()? > 1))
             },
             None => {
-                if self.to_array_f64().get_elements()?.iter().any(ArrayElement::is_nan) {
+                if self.is_empty()? {
+                    Err(ArrayError::ParameterError { param: "`array`", message: "cannot be empty" })
+                } else if self.to_array_f64().get_elements()?.iter().any(ArrayElement::is_nan) {
                     Self::single(N::from(f64::NAN))
                 } else {
                     let result = self.into_iter().fold(self[0], |a, &b| if a < b { b } else { a });
@@ -293,6 +295,7 @@ impl <N: Numeric> ArrayExtrema<N> for Array<N> {
             let result = self.apply_along_axis(axis, |arr| arr.min(None));
             result.reshape(&result.get_shape()?.remove_at_if(axis, result.ndim()? > 1))
         } else {
+            if self.is_empty()? { return Err(ArrayError::ParameterError { param: "`array`", message: "cannot be empty" }) }
             if self.to_array_f64().get_elements()?.iter().any(ArrayElement::is_nan) { return Self::single(N::from(f64::NAN)) }
             let result = self.into_iter().fold(self[0], |a, &b| if a > b { b } else { a });
             Self::single(result)
